@@ -20,7 +20,10 @@ TEXTS = [None, b"done", b"", b'with "quotes" and \\ backslash', b"\xc3\xa9t\xc3\
          b"script errors:\r\nline 1: syntax error\r\n", b"ends with lf\n", b"cr at the end\r", b"blank line after\r\n\r\n",
          # long texts of multi-byte characters at every alignment (a limit counted in octets must not cut a character in two)
          "é".encode() * 130, b"a" + "é".encode() * 130, "€".encode() * 90, b"a" + "€".encode() * 90, b"ab" + "€".encode() * 90]
-CODES = [None, b"QUOTA", b"QUOTA/MAXSIZE", b"NONEXISTENT", b"ACTIVE", b"ALREADYEXISTS", b"TRYLATER", b"WARNINGS", b'TAG "abc"', b'TAG "a)b\\"c"', b"x-vendor/sub-code_1"]
+CODES = [None, b"QUOTA", b"QUOTA/MAXSIZE", b"NONEXISTENT", b"ACTIVE", b"ALREADYEXISTS", b"TRYLATER", b"WARNINGS", b'TAG "abc"', b'TAG "a)b\\"c"', b"x-vendor/sub-code_1",
+         # the rest of the RFC 5804 registry, deeper hierarchies, codes that extend a registered one
+         b"QUOTA/MAXSCRIPTS", b"AUTH-TOO-WEAK", b"ENCRYPT-NEEDED", b"TRANSITION-NEEDED", b'REFERRAL "sieve://other.example"', b'SASL "cnNwYXV0aD1lYQ=="',
+         b"QUOTA/MAXSIZE/PERUSER", b"QUOTA/x-vendor", b"NONEXISTENT/x", b"a/b/c", b"QUOTAS", b"QUOTA/MAXSCRIPT"]
 
 
 def status_lines(r, status, n):
@@ -82,6 +85,16 @@ def cases(r, n_status=6):
                     op, args = one[k % len(one)]
                     k += 1
                     out.append((op, args, line, {"status": st.decode(), "code": code, "text": text}))
+    # every response code of the table at least once in a NO and in an OK, with and without a text (the operation rotates)
+    for code in CODES:
+        if code is None:
+            continue
+        for st in (b"NO", b"OK"):
+            for text in (None, b"why"):
+                line = st + b" (" + code + b")" + (b" " + q(text) if text is not None else b"") + b"\r\n"
+                op, args = one[k % len(one)]
+                k += 1
+                out.append((op, args, line, {"status": st.decode(), "code": code, "text": text}))
     for body in BODIES:
         for line, code, text in status_lines(r, b"OK", 2):
             out.append(("getscript", ("n",), lit(body) + b"\r\n" + line, {"status": "OK", "body": body}))
